@@ -1,7 +1,7 @@
-\* accumulator loops that keep every EVERY-th version
+\* every builtin of the engine applied to a shared immutable value (the check instantiates $p)
 SPECIFICATION Spec
 CONSTANTS
-  FAMS = {"loop"}
+  FAMS = {"sweep"}
   TYPES = {"hash", "hset", "ivec", "list", "str"}
   DEPTH = 0
   KINDS0 = {"G", "P", "L", "M", "B", "C", "EL", "EP", "EV", "EI", "EH", "ES", "K", "WL", "WM"}
@@ -16,10 +16,10 @@ CONSTANTS
   MAXBASE = 1
   MAXLEN = 6
   BASESET = "small"
-  LOOPN = {5, 70}
-  LOOPEVERY = {1, 3, 33}
-  LOOPSTYLES = {"nl-op-first", "nl-save-first", "set-local", "set-global", "foldl", "vec", "hashv", "box", "thread"}
-  SWEEPSHAPES = {}
+  LOOPN = {}
+  LOOPEVERY = {}
+  LOOPSTYLES = {}
+  SWEEPSHAPES = {"LG", "MG", "ME", "MC"}
 INVARIANTS TypeOK FunctionOK Emit
 PROPERTIES Immutable
 CHECK_DEADLOCK FALSE
